@@ -16,7 +16,7 @@ RULE = ('(a) Utility::Match against the Gallina glob matcher: ALL patterns of le
         'real handlers through HttpHandler::ProcessRequest (GET/POST/DELETE /v1/objects/<type>[/<name>], POST /v1/actions/reschedule-check, '
         'joins). non-trivial = the case contains a query that returned at least one object or was refused; distinct = distinct script text')
 TRUSTED = ['model: coq/Perm/PmModel.v (transcription of FilterUtility::HasPermission/CheckPermission/EvaluateFilter/GetFilterTargets, '
-           'ApplyRule::GetTargetHosts/GetTargetServices, the joins loop of ObjectQueryHandler; glob matcher proved equivalent to a declarative '
+           'ApplyRule::GetTargetHosts/GetTargetServices, the filter_vars shadowing guard, the namespace resets of the permission frame, the joins loop of ObjectQueryHandler; glob matcher proved equivalent to a declarative '
            'spec and compared exhaustively with Utility::Match on short strings)',
            'filters are the boolean DSL fragment {sc.name == "..", sc.vars.k == "..", sc.name == filter_var, &&, ||, !, true, false} with '
            'three-valued evaluation (true/false/ScriptError); the rest of the DSL is C15',
@@ -25,7 +25,7 @@ TRUSTED = ['model: coq/Perm/PmModel.v (transcription of FilterUtility::HasPermis
            'harness/ops_pm.cpp: exception classes (ScriptError / invalid_argument), object sets and HTTP status are observed; no log text']
 ASSUMPTIONS = ['ASCII permission strings and object names (String::ToLower and tolower agree on ASCII)',
                'object names are unique per type (ConfigObject registry) and contain no "!" (enforced by Icinga name validation)',
-               'no empty-string values in filters (Icinga treats "" as Empty in ==)',
+               'no empty-string values in filters (Icinga treats "" as Empty in ==)', 'filter variables are not named obj/host/service',
                'the used_by meta list and get_object() inside user filters are outside the statement (DESIGN.md C18)']
 
 
@@ -418,8 +418,6 @@ def classify(case, detail, impl_lines):
         return 'permission-matching'
     if 'rejected-first' in detail or 'request-served' in detail:
         return 'reject-first'
-    if 'stale-service-variable' in detail:
-        return 'stale-service-variable'
     if 'joined' in detail:
         return 'join-unpermitted'
     if 'unpermitted' in detail or 'forbidden' in detail:
